@@ -1,4 +1,5 @@
 import DateutilVerif.Properties.C08
+import DateutilVerif.Properties.C08Pure   -- one object, many calls: answers are a function of the constructor arguments and the query
 import DateutilVerif.Properties.TzGen   -- translator tie (wt-iso): obligations about the re-translated lookup functions
 import DateutilVerif.Properties.TzObjGen   -- translator tie (wt-iso): tzrange/tzstr construction
 #print axioms C08.rule_instant
@@ -38,3 +39,6 @@ import DateutilVerif.Properties.TzObjGen   -- translator tie (wt-iso): tzrange/t
 #print axioms C08.gen_eq_model_tzlocal_isdst
 #print axioms C08.gen_eq_model_tzlocal_utcoffset
 #print axioms C08.gen_eq_model_tzlocal_tzname
+#print axioms C08.range_answers_pure
+#print axioms C08.tzstr_answers_pure
+#print axioms C08.same_arguments_same_answers
